@@ -1,6 +1,7 @@
 package exec
 
 import (
+	"unicode/utf8"
 	"crypto/sha256"
 	"encoding/base64"
 	"encoding/hex"
@@ -783,6 +784,29 @@ func (m *Machine) runes(v value) []*sym.Term {
 	var out []*sym.Term
 	for i := 0; i < len(b); {
 		c := b[i]
+		// a run of constant bytes is decoded by the real decoder (any
+		// UTF-8 length); only symbolic bytes are limited to 1-2 byte forms
+		if c.IsConst() && c.U >= 0x80 {
+			var buf []byte
+			for j := i; j < len(b) && j < i+4 && b[j].IsConst(); j++ {
+				buf = append(buf, byte(b[j].U))
+			}
+			r, size := utf8.DecodeRune(buf)
+			need := 1
+			switch {
+			case c.U >= 0xf0:
+				need = 4
+			case c.U >= 0xe0:
+				need = 3
+			case c.U >= 0xc2:
+				need = 2
+			}
+			if r != utf8.RuneError || len(buf) >= need || i+len(buf) == len(b) {
+				out = append(out, st.BVC(32, uint64(r)))
+				i += size
+				continue
+			}
+		}
 		if m.decide(st.ULt(c, st.BVC(8, 0x80))) {
 			out = append(out, st.ZExt(c, 32))
 			i++
